@@ -56,7 +56,11 @@ def gen_spec(rng):
     strategy = rng.choice(["plain", "plain", "plain", "page_by", "page_by_new", "subline"])
     multi = rng.random() < 0.7
     n = rng.randint(8, 40) if multi else rng.randint(1, 5)
-    spec = G.gen_table_spec(rng, nrows=n, ncols=(1, 5), strategy=strategy, attrs_p=0.0, rich=0.0,
+    big = rng.random() < 0.04
+    if big:
+        # pages far longer than the default 40 rows (one block / chunk of any internal batching is exceeded)
+        n, multi = rng.randint(70, 280), True
+    spec = G.gen_table_spec(rng, nrows=n, ncols=(1, 3) if big else (1, 5), strategy=strategy, attrs_p=0.0, rich=0.0,
                             header=rng.choice(["default", "explicit", "tworow", "none"]),
                             nrow=rng.randint(5, 12) if multi else 60, page={}, col_rel_width=False, maxruns=3,
                             title=rng.random() < 0.3, subline=False, page_hf=False)
@@ -65,6 +69,8 @@ def gen_spec(rng):
         spec["body"]["as_colheader"] = False
     page = spec.setdefault("page", {})
     page["nrow"] = rng.randint(5, 12) if multi else 60
+    if big:
+        page["nrow"] = rng.choice([66, 70, 92, 100, 130, 200, 300])
     for k in ("border_first", "border_last"):
         if rng.random() < 0.7:
             page[k] = rng.choice(G.BORDERS)
